@@ -324,7 +324,7 @@ package compiler
 // ---- constructors
 //@ func New
 //@   property C10 C12
-//@   ensures [keeps_the_steps_in_order] result != nil && result.steps == steps
+//@   ensures [keeps_the_steps_in_order] result != nil && ((forall j int :: 0 <= j && j < len(steps) ==> steps[j] != nil) ==> len(result.steps) == len(steps) && (forall j int :: 0 <= j && j < len(steps) ==> result.steps[j] == steps[j]))
 //@ func NewStepCompileDecorators
 //@   property C04 C14
 //@   ensures [fields_as_given] result != nil && result.aliaser == a && result.argResolver == ar
